@@ -243,6 +243,30 @@ theorem C09_roundtrip (ver : String) (hver : PlainVer ver) (ns : Nat) (hns : 0 <
     unfold serialize
     rw [hn3', hbl 0, hbl 1, hbl 2, hul, hvl]
 
+/-- the printed vertices are 2-D points whose coordinates have numerators and denominators of
+    at most 18 digits (the range of the harness' exact notation) -/
+structure SmallCoords (m : Map Val) : Prop where
+  pt : ∀ v ∈ iterVertices2 m, ∀ val, m.att 0 v = some val →
+    ∃ x y, val = .pt x y 0 ∧ x.num.natAbs < 10 ^ 18 ∧ x.den < 10 ^ 18 ∧
+      y.num.natAbs < 10 ^ 18 ∧ y.den < 10 ^ 18
+
+/-- `CoordsPrintable` is not an extra assumption on that range: it is proved
+    (`parseCoord_ratStr`, `noHash_ratStr`) -/
+theorem C09_coordsPrintable_of_small {m : Map Val} (h : SmallCoords m) : CoordsPrintable m := by
+  constructor
+  intro v hv val hval
+  obtain ⟨x, y, e, a, b, c, d⟩ := h.pt v hv val hval
+  exact ⟨x, y, e, parseCoord_ratStr x a b, parseCoord_ratStr y c d, noHash_ratStr x, noHash_ratStr y⟩
+
+/-- the round trip with no assumption on tokens: every well-formed 2-map with fewer than 2^32
+    darts and 18-digit rational coordinates -/
+theorem C09_roundtrip_small (ver : String) (hver : PlainVer ver) (ns : Nat) (hns : 0 < ns)
+    (m : Map Val) (hwf : WF 3 m) (h32 : m.n ≤ u32Bound) (hc : SmallCoords m) :
+    ∃ m', load ns (serialize ver m) = .ok m' ∧ m'.n = m.n ∧
+      (∀ i, i < 3 → ∀ d, m'.β i d = m.β i d) ∧ (∀ d, m'.unused d = m.unused d) ∧
+      (∀ v ∈ iterVertices2 m, m'.att 0 v = m.att 0 v) ∧ serialize ver m' = serialize ver m :=
+  C09_roundtrip ver hver ns hns m hwf h32 (C09_coordsPrintable_of_small hc)
+
 /-! ## non-vacuity: a 5-dart map with an open β1 path, a β2 pair, a removed dart, defined and
     undefined vertices, a value on a non-vertex id (2 is a vertex here; 5 is removed and holds a
     stale value that is not printed) satisfies every hypothesis -/
